@@ -344,7 +344,7 @@ def nonincreasing(alphabet, length):
 # shapes, tensor dict order, root, raw shapes and the recorded centre must agree EXACTLY, and every
 # raw tensor must equal its model diagram evaluated on the recorded atoms.
 W_IMPORTS = ("From Coq Require Import List Arith Bool. From PTN Require Import TTN.Store TTN.Canon TTN.TruncTree "
-             "TTN.Inv TTN.InvRun. Import ListNotations.")
+             "TTN.Inv TTN.InvRun TTN.TruncTreeValue. Import ListNotations.")
 W_TMP = "(fun j c n => 2000 + 3 * (16 * c + n) + j)"
 
 
@@ -384,17 +384,44 @@ def wtie_impl(case, p):
     t = drv.ttn
     w = {"algo": case["algo"], "ops": ops, "pre_snap": wmodel.snapshot(t), "pre_centre": t.orthogonality_center_id}
     kept, visits = [], []
+    # [ext-C10V] number of values each truncate_singular_values call discards, and the numerical validation of the
+    # kernel contracts of C10_*_identity_when_nothing_discarded (TTN/TruncTreeValue.v: def_holds / proj_contract)
+    disc, contracts, pending = [], [], []
     names = ["tensor_qr_decomposition", "contr_truncated_svd_splitting", "idiots_splitting"]
+    kinds = {"tensor_qr_decomposition": "qr", "contr_truncated_svd_splitting": "svd", "idiots_splitting": "pair"}
     orig = {nm: getattr(ttn_mod, nm) for nm in names}
     orig_ii = ttn_mod.TreeTensorNetwork.insert_identity
     orig_tsv = ts.truncate_singular_values
     orig_gp, orig_cs = rt_mod.get_truncation_projector, st_mod.contract_and_split_with_parent
 
-    def wrap(f):
+    def wrap(f, kind):
         def g(*a, **kw):
+            n0 = len(disc)
             q, rr = f(*a, **kw)
             drv.atoms.append(np.array(q))
             drv.atoms.append(np.array(rr))
+            if kind == "pair" and pending:
+                # proj_contract: the pair that replaces the identity on the bond, applied to the tensor above the bond
+                # on the leg of the bond, gives that tensor back (P P^dagger A = A); promised when the SVD that
+                # produced the projector discarded nothing
+                A, idx, nothing = pending.pop()
+                pair = np.tensordot(np.asarray(q), np.asarray(rr), axes=(-1, 0))       # [i, j] = sum_l Q[i, l] R[l, j]
+                ok = pair.ndim == 2 and pair.shape[0] == A.shape[idx]
+                back = np.moveaxis(np.tensordot(A, pair, axes=(idx, 0)), -1, idx) if ok else None
+                ok = ok and back.shape == A.shape
+                contracts.append({"kind": "proj", "nothing": nothing,
+                                  "res": (float(np.max(np.abs(back - A))) if A.size else 0.0) if ok else float("inf"),
+                                  "scale": float(max(1.0, np.max(np.abs(A)))) if A.size else 1.0,
+                                  "square": bool(np.asarray(q).shape[0] == np.asarray(q).shape[-1])})
+            if kind in ("qr", "svd"):
+                # def_holds: first factor . second factor (over the new bond) = the split tensor, legs out ++ in;
+                # a truncated SVD promises this only when the call discarded nothing
+                ref = np.asarray(a[0]).transpose(tuple(a[1]) + tuple(a[2]))
+                prod = np.tensordot(np.asarray(q), np.asarray(rr), axes=(-1, 0))
+                same = prod.shape == ref.shape
+                contracts.append({"kind": kind, "nothing": bool(kind == "qr" or all(d == 0 for d in disc[n0:])),
+                                  "res": float(np.max(np.abs(prod - ref))) if (same and ref.size) else (0.0 if same else float("inf")),
+                                  "scale": float(max(1.0, np.max(np.abs(ref)))) if ref.size else 1.0})
             return q, rr
         return g
 
@@ -408,17 +435,23 @@ def wtie_impl(case, p):
     def tsv(s, params):
         res = orig_tsv(s, params)
         kept.append(int(len(res[0])))
+        disc.append(int(len(res[1])))
         return res
 
     def gp(node, node_tensor, child_id, svd_parameters):
         visits.append(child_id)
-        return orig_gp(node, node_tensor, child_id, svd_parameters)
+        n0 = len(disc)
+        proj = orig_gp(node, node_tensor, child_id, svd_parameters)
+        # the tensor above the bond and its leg toward the child, for the contract of the pair that is inserted next
+        del pending[:]
+        pending.append((np.array(node_tensor), node.neighbour_index(child_id), bool(all(d == 0 for d in disc[n0:]))))
+        return proj
 
     def cs(node_id, tree, params):
         visits.append(node_id)
         return orig_cs(node_id, tree, params)
     for nm in names:
-        setattr(ttn_mod, nm, wrap(orig[nm]))
+        setattr(ttn_mod, nm, wrap(orig[nm], kinds[nm]))
     ttn_mod.TreeTensorNetwork.insert_identity = ii
     ts.truncate_singular_values = tsv
     rt_mod.get_truncation_projector, st_mod.contract_and_split_with_parent = gp, cs
@@ -445,6 +478,7 @@ def wtie_impl(case, p):
     w["raws"] = {k: np.array(v) for k, v in t._tensors.data.items()}
     w["atoms"] = drv.atoms
     w["visits"], w["kept"] = visits, kept
+    w["disc"], w["contracts"] = disc, contracts
     return w
 
 
@@ -462,15 +496,18 @@ def wtie_exprs(w, n):
         kd = [(v, (w["kept"][j] if j < len(w["kept"]) else 1)) for j, v in enumerate(w["visits"])]
     kdl = coq_list([f"({coq_nat(idm(c))}, {coq_nat(k)})" for c, k in kd])
     algo = "true" if w["algo"] == "rec" else "false"
+    ops = (f"recursive_truncation_ops {W_TMP} (dget {kdl}) {coq_nat(rid)} cs" if w["algo"] == "rec"
+           else f"svd_truncation_ops (dget {kdl}) {coq_nat(rid)} cs")
     run = (f"let cs := crun {coq_nat(rid)} (empty_store, None) {body} in "
            f"([cobs true cs; trunc_obs {algo} {W_TMP} {kdl} {coq_nat(rid)} cs], "
-           f"trunc_info {algo} {W_TMP} {kdl} {coq_nat(rid)} cs)")
+           f"trunc_info {algo} {W_TMP} {kdl} {coq_nat(rid)} cs, "
+           f"alongb nd_step (fst cs) ({ops}))")        # [ext-C10V] nothing_discarded on the trace of the routine
     return run, idm
 
 
 def wtie_compare(w, mo, idm):
     import wmodel
-    ((ok0, o0, c0), (ok1, o1, c1)), (hyps, post, trace) = mo
+    ((ok0, o0, c0), (ok1, o1, c1)), (hyps, post, trace), nd = mo
     m0, m1 = wmodel.model_obs_to_py(o0, idm), wmodel.model_obs_to_py(o1, idm)
     d = wmodel.compare_snapshot(w["pre_snap"], m0)
     if d:
@@ -493,13 +530,18 @@ def wtie_compare(w, mo, idm):
     # the order in which the bonds are handled: trace of the model recursion / the model's update path
     if w["ok"] and [idm.r[c] for c in trace] != w["visits"]:
         return f"{w['algo']}: bonds handled in the order {w['visits']}, model {[idm.r[c] for c in trace]}"
+    # [ext-C10V] the hypothesis `nothing_discarded` of the identity theorems, evaluated on the model's trace, is true
+    # exactly when no truncate_singular_values call of the run discarded a value
+    if w["ok"] and len(w["visits"]) == len(w["kept"]) and bool(nd) != all(d == 0 for d in w["disc"]):
+        return (f"{w['algo']}: model nothing_discarded = {nd} but the calls discarded {w['disc']} values "
+                f"(kept dimensions {list(zip(w['visits'], w['kept']))})")
     return None
 
 
 def wtie_obligations(mo):
     """per-instance kernel-checked facts: (hypotheses of C10_rec_* / C10_svd_* hold on the start store,
     invariant and supplied dimensions hold on the result)"""
-    _obs, (hyps, post, _trace) = mo
+    _obs, (hyps, post, _trace), _nd = mo
     return hyps is True, post is True
 # ==== END Layer-W tie ================================================================================
 
@@ -556,6 +598,33 @@ class C10(Prop):
               "factors (differential tie, not a theorem)"),
         ("V", "tree level, oracle on random states (independent dense contraction): identifiers and parent/child relations "
               "preserved, one truncation per bond, every bond in [1, max_bond_dim]"),
+        ("F", "tree level, both routines are RUNS OF EDIT OPERATIONS of the store model of C02 (TTN/TruncTreeValue.v): an executable "
+              "trace function lists the access / insert_identity / contract_nodes / split_nodes operations the routine performs, and "
+              "on every well-formed store a successful run of the program equals `run` of its trace with every operation accepted "
+              "and inside its documented precondition (C10_svd_truncation_is_a_run_of_edits, "
+              "C10_recursive_truncation_is_a_run_of_edits); `full rank' of a recorded factorisation is the dimension the model gives "
+              "the untruncated factorisation (C10_full_rank_is_untruncated_dimension)"),
+        ("O", "tree level, IDENTITY WHEN NOTHING IS DISCARDED, for every tree / store, both routines, over any commutative semiring "
+              "(C10_svd_truncation_identity_when_nothing_discarded, C10_recursive_truncation_identity_when_nothing_discarded): if "
+              "every truncating factorisation of the run keeps the dimension of the untruncated one (`nothing_discarded', an "
+              "executable predicate on the trace: min(rows, columns) for the truncated SVD of contract_and_split_with_parent, "
+              "min(bond dimension, product of the other legs of the upper tensor) for a projector of recursive_truncation), then "
+              "under the kernel contracts the result has the same open wires, the same value of the whole network (net_value of "
+              "C02) at every index assignment, and satisfies the extended invariant wfs.  Kernel contracts (`kernel_contracts', "
+              "premises on the atom table, per step of the trace): QR: Q.R = A over the new bond; truncated SVD: U.(S Vh) = A "
+              "provided nothing is discarded; projector pair (conj(P), P^T) that replaces the inserted identity: P P^dagger A = A "
+              "for the tensor A above the bond, provided nothing is discarded (`proj_contract': contextual -- with nothing "
+              "discarded P has min(d, rest) columns and P P^dagger is the identity matrix only when rest >= d; "
+              "C10_projector_pair_step, C10_unitary_projector_contract).  Also without the proviso whenever all factors are exact "
+              "(C10_*_exact_factors) and for svd_truncation under the contracts of C02 verbatim "
+              "(C10_svd_truncation_value_C02_contracts).  Non-vacuity: concrete tables over nat for both routines, incl. a bond "
+              "going from 2 to 1 with nothing discarded (C10_example_svd_identity, C10_example_rec_identity)"),
+        ("I", "per explored tree instance: the model's `nothing_discarded' flag on the trace of the routine is true exactly when no "
+              "truncate_singular_values call of the real run discarded a value (part of the Layer-W tie)"),
+        ("V", "tree level, the kernel contracts of the O clause validated numerically each run on the kernel factors recorded at the "
+              "boundary of pytreenet.core.ttn in the Layer-W run: every QR (Q.R = A), every truncated SVD that discarded nothing "
+              "(U.(S Vh) = A), every projector pair whose SVD discarded nothing (pair applied to the node tensor = node tensor), "
+              "to 1e-10*max(1, max|A|); counts in the distribution"),
         ("V", "tree level: identity (dense state unchanged to 1e-10*max(1,norm)) when no value is discarded on any bond: "
               "runtime check against an independent dense contraction"),
         ("V", "tree level, no renormalisation: ||psi - psi'|| <= (sum of all discarded values) * max(1, ||psi||): runtime check; "
@@ -575,7 +644,14 @@ class C10(Prop):
         "tree level, Layer-W tie: kernel factors (QR factors, truncated-SVD factors, the projector pair handed to "
         "split_node_replace, the identity of insert_identity) enter the model as opaque atoms recorded at the boundary of "
         "pytreenet.core.ttn; the kept dimension per bond is read from the recorded truncate_singular_values calls; the values of "
-        "the factors (isometry, projector) are outside the model and covered by the dense oracle only",
+        "the factors are outside the model",
+        "kernel contracts of the identity theorems (premises `kernel_contracts' of C10_*_identity_when_nothing_discarded, "
+        "TTN/TruncTreeValue.v; not axioms): numpy.linalg.qr / tensor_qr_decomposition returns Q, R with Q.R = A; "
+        "contr_truncated_svd_splitting returns U, S Vh with U.(S Vh) = A when truncate_singular_values discards nothing; the "
+        "projector P of get_truncation_projector (U of the truncated SVD of the node tensor w.r.t. the child leg) satisfies "
+        "P P^dagger A = A when nothing is discarded.  Validated numerically on every recorded kernel call of every "
+        "nothing-discarded Layer-W run (oracle _oracle_contracts), not proved (LAPACK is not modelled).  The value semantics "
+        "(net_value, atom tables zero outside the index ranges) is that of C02 (TTN/InvSem.v, Wire/Sem.v)",
     ]
     assumptions = [
         "spectra handed to truncate_singular_values are non-increasing and non-negative (numpy.linalg.svd contract); the model "
@@ -1126,6 +1202,13 @@ class C10(Prop):
                 if d:
                     return d
                 self.wtie_stats["tied:" + ob["w"]["algo"] + (":raised" if not ob["w"]["ok"] else "")] += 1
+                if ob["w"]["ok"]:                     # [ext-C10V]
+                    if all(d == 0 for d in ob["w"]["disc"]) and ob["w"]["disc"]:
+                        self.wtie_stats["nothing-discarded runs (model flag tied):" + ob["w"]["algo"]] += 1
+                    for c in ob["w"]["contracts"]:
+                        if c["nothing"]:
+                            k = c["kind"] + (":width<bond" if c["kind"] == "proj" and not c["square"] else "")
+                            self.wtie_stats["kernel contract validated:" + k] += 1
                 h, q = wtie_obligations(mw)
                 self.wtie_obl[0] += 2
                 self.wtie_obl[1] += int(h) + int(q)
@@ -1379,7 +1462,22 @@ class C10(Prop):
             return self._oracle_val(case, ob)
         if case["kind"] == "tsvd":
             return self._oracle_tsvd(case, ob)
-        return self._oracle_tree(case, ob)
+        return self._oracle_tree(case, ob) or self._oracle_contracts(case, ob)
+
+    @staticmethod
+    def _oracle_contracts(case, ob):
+        """[ext-C10V] the kernel contracts under which C10_*_identity_when_nothing_discarded are proved, validated on
+        the kernel factors recorded in the Layer-W run: Q.R = A for every QR, U.(S Vh) = A for every truncated SVD that
+        discarded nothing, P P^dagger A = A for every projector whose SVD discarded nothing."""
+        w = ob.get("w")
+        if not isinstance(w, dict) or not w.get("ok"):
+            return None
+        what = {"qr": "Q . R differs from the split tensor", "svd": "nothing discarded but U . (S Vh) differs from the split tensor",
+                "proj": "nothing discarded but conj(P) P^T applied to the node tensor differs from the node tensor"}
+        for j, c in enumerate(w.get("contracts", [])):
+            if c["nothing"] and not (c["res"] <= 1e-10 * c["scale"]):
+                return f"{case['algo']} (Layer-W run): kernel call {j} ({c['kind']}): {what[c['kind']]} by {c['res']:.3e}"
+        return None
 
     def classify(self, case, what, known):
         return None
